@@ -14,8 +14,8 @@ Ev == Tr[l]
 
 TInit == /\ tid \in 1..Len(Traces)
          /\ cfg = Traces[tid].cfg
-         /\ pc = "configure" /\ epoch = 0 /\ mode = "initial" /\ zeroed = TRUE /\ steps = 0 /\ pver = 0
-         /\ contrib = {} /\ batch = 0 /\ fresh = FALSE /\ hlen = 0 /\ vdone = 0 /\ sims = 0 /\ out = "running"
+         /\ pc = "configure" /\ epoch = 0 /\ mode = "initial" /\ steps = 0 /\ pver = 0
+         /\ zeroed = ~cfg.stale /\ contrib = (IF cfg.stale THEN {0} ELSE {}) /\ batch = 0 /\ fresh = FALSE /\ hlen = 0 /\ vdone = 0 /\ sims = 0 /\ out = "running"
          /\ l = 1 /\ TLCSet(tid, 1)
 
 Consume(A) == l <= Len(Tr) /\ A /\ pver' = Ev.pver /\ l' = l + 1 /\ tid' = tid
